@@ -100,6 +100,46 @@ func checkC30(p *Prog, r *Report) {
 			r.unresolved(rule, "syscall.Kill in package process")
 		}
 	}
+	// (2b) sendSignal reports "gone" only after it has signalled the group, and the wait after a kill is bounded
+	{
+		nT, badT := 0, 0
+		var site token.Pos
+		isKill := func(i ssa.Instruction) bool {
+			c, ok := i.(*ssa.Call)
+			return ok && isCallTo(c, "syscall.Kill")
+		}
+		for _, ret := range returnsOf(ss) {
+			if len(ret.Results) != 1 {
+				continue
+			}
+			if b, isC := constBool(unspill(ret.Results[0])); !isC || !b {
+				continue
+			}
+			nT++
+			if existsPath(ss, nil, ret, isKill) {
+				badT++
+				site = ret.Pos()
+			}
+		}
+		r.check(nT > 0 && badT == 0, rule, "sendSignal returns true only after signalling the group", p.pos(site), fnName(ss), itoa(nT)+" `return true`, each behind syscall.Kill(-pid, sig)", "sendSignal can report the process as gone without having sent the signal (e.g. when a lookup of the leader fails because it was already reaped): background children in the group that still hold the output pipes are never signalled and outlive the timed-out action")
+		// after KillProcess nothing waits without a bound
+		kpPub := p.Fn("process", "Executor.KillProcess")
+		unbounded := false
+		for _, kf := range []*ssa.Function{kpPub, kp} {
+			if kf == nil {
+				continue
+			}
+			for _, kc := range callsInFn(ewt, kf) {
+				eachInstr(ewt, false, func(_ *ssa.Function, i ssa.Instruction) {
+					if u, ok := i.(*ssa.UnOp); ok && u.Op == token.ARROW && existsPath(ewt, kc, u, nil) {
+						unbounded = true
+						site = u.Pos()
+					}
+				})
+			}
+		}
+		r.check(!unbounded, "E5.timeout-kills", "no unbounded wait after the kill", p.pos(site), fnName(ewt), "after KillProcess the function returns without a blocking receive", "after killing a timed-out action ExecWithTimeout blocks on a channel receive with no timeout: cmd.Wait only returns when every holder of the output pipes has exited, so a descendant outside the process group (setsid, job control) keeps the timeout from being reported until it exits by itself")
+	}
 	// (3)
 	rule = "E5.term-then-kill"
 	{
@@ -361,6 +401,35 @@ func checkC31(p *Prog, r *Report) {
 		}
 	}
 	// (3)
+	// lock files are never unlinked: a process that holds (or waits on) the old inode and one that creates the name
+	// afresh would each hold "the" lock
+	{
+		n := 0
+		for _, fn := range p.Funcs("build", "core", "plz", "test", "fs", "clean") {
+			eachInstr(fn, false, func(_ *ssa.Function, i ssa.Instruction) {
+				c, ok := i.(*ssa.Call)
+				if !ok || !isCallTo(c, "os.Remove", "os.RemoveAll", "fs.RemoveAll") || len(c.Call.Args) == 0 {
+					return
+				}
+				tg := tagsOf(c.Call.Args[0], SliceOpts{})
+				isLock := tg["call:(*core.BuildTarget).BuildLockFile"] || tg["call:(*core.BuildTarget).TestLockFile"]
+				for _, f := range factsAt(c) {
+					if hc, ok := f.V.(*ssa.Call); ok && f.Val && isCallTo(hc, "strings.HasSuffix") {
+						if sfx, ok := constString(hc.Call.Args[1]); ok && sfx == ".lock" {
+							isLock = true
+						}
+					}
+				}
+				if isLock {
+					n++
+					r.bad("E7.lock-files-never-unlinked", "a lock file is removed", p.pos(c.Pos()), fnName(fn), "a target lock file is unlinked: an invocation that is building the target keeps its flock on the old inode while a later one creates the file anew, locks that at once, and wipes the temporary directory under the running command")
+				}
+			})
+		}
+		if n == 0 {
+			r.ok("E7.lock-files-never-unlinked", "no lock file is ever removed", "-", "", "no os.Remove / RemoveAll on a BuildLockFile() / TestLockFile() / *.lock path in build, core, plz, test, fs, clean")
+		}
+	}
 	rule = "E7.lock-path"
 	for _, spec := range []struct {
 		fn  *ssa.Function
